@@ -109,6 +109,25 @@ def uses_in_inner_scopes(func):
     return names
 
 
+PRIVATE_PREFIXES = ('_unpack_', '_pack_', '_clone_from_', '_lets_find', '_defer_', '_search_buffer')
+
+
+def rename_private(src):
+    """rename private helper methods / attributes (strategy implementations, clone helpers...)
+    consistently across the package: definitions, attribute references, names and equal strings"""
+    tree = ast.parse(src)
+    for n in ast.walk(tree):
+        if isinstance(n, ast.FunctionDef) and n.name.startswith(PRIVATE_PREFIXES):
+            n.name = n.name + '_rn'
+        elif isinstance(n, ast.Attribute) and n.attr.startswith(PRIVATE_PREFIXES):
+            n.attr = n.attr + '_rn'
+        elif isinstance(n, ast.Name) and n.id.startswith(PRIVATE_PREFIXES):
+            n.id = n.id + '_rn'
+        elif isinstance(n, ast.Constant) and isinstance(n.value, str) and n.value.startswith(PRIVATE_PREFIXES) and n.value.isidentifier():
+            n.value = n.value + '_rn'
+    return ast.unparse(tree) + '\n'
+
+
 def main():
     kind, out = sys.argv[1], sys.argv[2]
     shutil.rmtree(out, ignore_errors=True)
@@ -118,7 +137,7 @@ def main():
             continue
         p = os.path.join(out, 'bisturi', fn)
         src = open(p).read()
-        if kind in ('rename', 'both'):
+        if kind in ('rename', 'both', 'all'):
             # protect names used in inner scopes: the symtable pass handles free variables of
             # nested defs; comprehensions / lambdas are left untouched, so any local they read
             # must not be renamed -> post-filter by a second pass
@@ -134,7 +153,9 @@ def main():
                 return _o(node, tab) - keep
             r._locals = filtered
             src = ast.unparse(r.visit(tree)) + '\n'
-        if kind in ('roundtrip', 'both'):
+        if kind in ('private', 'all'):
+            src = rename_private(src)
+        if kind in ('roundtrip', 'both', 'all'):
             src = roundtrip(src)
         compile(src, fn, 'exec')
         open(p, 'w').write(src)
